@@ -393,6 +393,18 @@ func scenarios(w *bufio.Writer) {
 		n.op("T 1 1", func() { n.d.OnTimeout(1, 1) })
 		endRun(w, mon, n)
 	}
+	// C13 (third-round seeded change C13c, first caught through a generated history only): a watch-only validator is given M-1
+	// PrepareResponses before the proposal they answer, then the proposal with all its transactions: it must not commit
+	{
+		mon := begin(4, -1, 0)
+		n := mkScenNode(mon, 2, mkVals(4), -1, w, func(n *node) { n.wo = true })
+		n.start(0)
+		req := &Payload{dbft.PrepareRequestType, 1, 0, 1, prepReq{5000000, 9, nil}}
+		n.recv(&Payload{dbft.PrepareResponseType, 1, 0, 0, prepResp{req.Hash()}})
+		n.recv(&Payload{dbft.PrepareResponseType, 1, 0, 3, prepResp{req.Hash()}})
+		n.recv(req)
+		endRun(w, mon, n)
+	}
 }
 
 // pump delivers every broadcast payload to every other node in FIFO order until quiet (or max deliveries).
